@@ -214,12 +214,13 @@ def run_selftest(prop):
     if not os.path.exists(fx):
         return {"fixtures": 0}
     try:
-        r = subprocess.run([os.path.join(VERIF, "selftest", "mutants.py"), "--prop", prop, "-j", "8"], cwd=VERIF,
+        seed = os.environ.get("VERIF_SEED", "0") or "0"
+        r = subprocess.run([os.path.join(VERIF, "selftest", "mutants.py"), "--prop", prop, "-j", "8", "--sample", "16", "--seed", seed], cwd=VERIF,
                            stdout=subprocess.PIPE, stderr=subprocess.STDOUT, text=True, timeout=3600)
     except Exception as e:  # noqa
         return {"error": str(e)}
     lines = [l.split() for l in r.stdout.splitlines() if l.startswith(prop + " ")]
-    res = {"fixtures": len(lines),
+    res = {"note": "a seeded sample of at most 16 fixtures per run; `selftest/mutants.py --prop %s` runs all" % prop, "fixtures": len(lines),
            "mutants_caught": sum(1 for l in lines if l[-1] == "ok-caught"),
            "benign_silent": sum(1 for l in lines if l[-1] == "ok-silent"),
            "not_as_expected": [" ".join(l[1:]) for l in lines if not l[-1].startswith("ok")]}
